@@ -111,8 +111,10 @@ type need struct {
 func ruleR8_1(r *Run) {
 	w := r.W
 	matrix := map[string][]need{
-		"MergeLabels":     {{"addMergeToMapping", ""}, {"PutLabelIndex", ""}, {"DeleteLabelIndex", "each:Merged"}, {"LogMerge", ""}},
-		"RenumberLabels":  {{"addRenumberToMapping", ""}, {"LogRenumber", ""}, {"DeleteLabelIndex", ""}, {"PutLabelIndex", "idx"}},
+		"MergeLabels":     {{"addMergeToMapping", ""}, {"PutLabelIndex|putCachedLabelIndex", ""}, {"DeleteLabelIndex", "each:Merged"}, {"LogMerge", ""}},
+		"RenumberLabels":  {{"addRenumberToMapping", ""}, {"LogRenumber", ""}, {"DeleteLabelIndex|deleteCachedLabelIndex", ""}, {"PutLabelIndex|moveLabelIndex", "idx"}},
+		"moveLabelIndex":  {{"putCachedLabelIndex", "idx"}, {"deleteCachedLabelIndex", ""}},
+		"addToLabelIndex": {{"getCachedLabelIndex", ""}, {"putCachedLabelIndex", ""}},
 		"CleaveLabel":     {{"cleaveIndex", ""}, {"addCleaveToMapping", ""}, {"LogCleave", ""}},
 		"cleaveIndex":     {{"Cleave", ""}, {"putCachedLabelIndex", "x2"}},
 		"SplitLabels":     {{"splitPass1", ""}, {"splitPass2", ""}, {"splitIndex", ""}, {"addSplitToMapping", ""}, {"LogSplit", ""}},
@@ -136,6 +138,9 @@ func ruleR8_1(r *Run) {
 			f = w.fn(lmPkg, op)
 		}
 		if f == nil {
+			if op == "moveLabelIndex" || op == "addToLabelIndex" {
+				continue // helpers of the merge/renumber read-modify-write; absent when the operation inlines them
+			}
 			r.violation("labelmap."+op, "operation not found", "-")
 			continue
 		}
